@@ -146,7 +146,7 @@ func init() {
 						}
 					case "ready_after_ok":
 						// one healthy probe, then the store is gone (every operation fails from now on), then the next probe at once
-						r0 := w.do(vpReq{Target: "/ready"})
+						r0 := w.do(vpReq{Target: w.opts.ReadyPath})
 						if r0.Status != 200 {
 							fail = fmt.Sprintf("the healthy probe answered %d", r0.Status)
 							break
@@ -157,11 +157,11 @@ func init() {
 							pendingFail[cmd.Op+" "+cmd.Key] = true
 							return &vpStoreFault{Kind: "err_before"}
 						}
-						r = w.do(vpReq{Target: "/ready"})
+						r = w.do(vpReq{Target: w.opts.ReadyPath})
 						disarm()
 					case "ready":
 						arm()
-						r = w.do(vpReq{Target: "/ready"})
+						r = w.do(vpReq{Target: w.opts.ReadyPath})
 						disarm()
 					}
 					if fail != "" || r == nil {
